@@ -511,13 +511,14 @@ pub fn compute_swap(
             )
             .to_uint_floor();
 
-            // calculate spread, swap and protocol fees
-            let exchange_rate = Decimal256::checked_from_ratio(ask_pool_amount, offer_pool_amount)
-                .map_err(|_| ContractError::PoolHasNoAssets)?;
-            let slippage_amount: Uint256 = (Decimal256::from_ratio(offer_amount, Uint256::one())
-                .checked_mul(exchange_rate)?
-                .to_uint_floor())
-            .checked_sub(return_amount)?;
+            // calculate spread, swap and protocol fees. The amount the offer would fetch at the
+            // pre-trade price is offer_amount * ask_pool / offer_pool; going through an 18-digit
+            // exchange rate loses most of its digits when the raw price is tiny (an 18-decimals
+            // asset against a 6-decimals one), understating the spread.
+            let slippage_amount: Uint256 = offer_amount
+                .checked_multiply_ratio(ask_pool_amount, offer_pool_amount)
+                .map_err(|_| ContractError::PoolHasNoAssets)?
+                .checked_sub(return_amount)?;
 
             let fees_computation = compute_fees(&pool_info.pool_fees, return_amount)?;
 
